@@ -13,8 +13,9 @@
    Granularity: the byte stream is abstracted to frames (C11 owns byte alignment).  What is
    left of the byte level is the ghost flag [misaligned]: it is raised by the steps after
    which the read buffer does not start at a frame boundary although the connection is
-   still open (a response body abandoned half-read without closing; a Kafka-error path
-   that leaves bytes, C11's finding F2).  [aligned s] is [misaligned s = false]. *)
+   still open (a Kafka-error path that returns with bytes of the frame unread — C11's
+   business; no such path is left in /repo after commit bc68f17, the label [RKafkaLeft]
+   stays as the hypothesis [aligned] made explicit).  [aligned s] is [misaligned s = false]. *)
 From Coq Require Import List ZArith Bool Arith.
 Import ListNotations.
 Local Open Scope Z_scope.
@@ -27,7 +28,7 @@ Definition wrap32 (z : Z) : Z := (z + 2147483648) mod 4294967296 - 2147483648.
 (* which code path runs the read side of the operation *)
 Inductive kind :=
 | KDo            (* Conn.do : readOperation / writeOperation *)
-| KApiVersions   (* Conn.ApiVersions : doRequest + waitResponse + inline reads *)
+| KApiVersions   (* Conn.ApiVersions : an ordinary Conn.do operation; kept as a tag for the driver *)
 | KBatch.        (* Conn.ReadBatchWith : the read lock is handed to a Batch *)
 
 (* result of parsing the response body *)
@@ -137,7 +138,7 @@ Inductive label :=
 | PeekOther (t : tid)             (* foreign id: ErrNoProgress if alone, else unlock and retry *)
 | PeekFail (t : tid)              (* EOF / closed while peeking: conn.Close, unlock, leave *)
 | PeekGarbage (t : tid)           (* misaligned stream only: the 8 bytes at the head happen to carry t's id *)
-| ReadDone (t : tid) (r : rres)   (* body parsed; non-Kafka error closes (do) — or not (ApiVersions) *)
+| ReadDone (t : tid) (r : rres)   (* body parsed; a non-Kafka error closes the connection *)
 | BatchOpen (t : tid)             (* ReadBatchWith returns the Batch holding rlock *)
 | BatchClose (t : tid) (r : rres) (* Batch.close: discard the rest, close on non-Kafka error, unlock *)
 | Deadline (t : tid)              (* the call's deadline fires where it is blocked on the socket *)
@@ -149,9 +150,12 @@ Definition tid_eqb (a : option tid) (t : tid) : bool :=
 
 Definition is_none {A} (a : option A) : bool := match a with None => true | Some _ => false end.
 
-(* the read callback failed with a non-Kafka error: what the code path does about it *)
+(* the read callback failed with a non-Kafka error: every code path closes the connection.
+   Conn.do does (c.conn.Close()); Batch.close does (conn.Close()); Conn.ApiVersions goes
+   through Conn.do since /repo commit 9708961 (before that it returned the error with the
+   connection left open). *)
 Definition closes_on_fatal (k : kind) : bool :=
-  match k with KApiVersions => false | _ => true end.
+  match k with KDo | KApiVersions | KBatch => true end.
 
 Definition finish_read (s : state) (t : tid) (r : rres) : state :=
   let th := thr s t in
